@@ -1,7 +1,7 @@
 #!/usr/bin/env python3
 """Confirm a behaviour-preserving rewrite delivered by an independent sub-agent and keep it.
 
-  python3 tools_confirm_benign.py <Cxx> <b1|b2|b3>   (reads /tmp/seed/<Cxx>/benign/<bk>/, uses worktree /tmp/seed/<Cxx>/repo)
+  python3 tools_confirm_benign.py <Cxx> <b1|b2|...> [outdir]   (reads /tmp/seed/<Cxx>/benign/<bk>/, uses worktree /tmp/seed/<Cxx>/repo)
 
 Confirms, in the scratch worktree: the patch applies to the current /repo HEAD, the code builds
 (also with the `verif` tag), the whole existing test suite passes with it, and the agent's
@@ -31,7 +31,8 @@ def props_anchoring(files):
 
 def main():
     pid, bk = sys.argv[1], sys.argv[2]
-    src = "/tmp/seed/%s/benign/%s" % (pid, bk)
+    outdir = sys.argv[3] if len(sys.argv) > 3 else "benign"
+    src = "/tmp/seed/%s/%s/%s" % (pid, outdir, bk)
     wt = "/tmp/seed/%s/repo" % pid
     meta = json.load(open(os.path.join(src, "meta.json")))
     head = sh(["git", "-C", "/repo", "rev-parse", "HEAD"])[1].strip()
